@@ -27,7 +27,12 @@ def tasks(tier):
     t += [_tm.T(f"subclasscheck/dependent_applicable_iff_bound[{k}]", mro_c.t_sc_dependent(k)) for k in mro_c.DEP]
     t += [_tm.T("DependentType.__instancecheck__", mro_c.t_dep_instancecheck)]
     t += [_tm.T(f"typeorder/dependent_below_bound[{k}]/plain_bound", mro_c.t_dependent_below_bound(k, ["Class", "Alias", "Strict", "HasMethod", "ClassCheck"])) for k in mro_c.DEP]
-    t += _tm.resolve_tasks(tier) + _tm.wrap_tasks()
+    # two value-dependent methods that are not ordered (crossing wildcards, unrelated conditions) must stay unordered: the
+    # order of value-dependent kinds (shared with C12), and the native mirror / order-free clauses over wildcard shapes
+    for a, b in (("Equals", "Equals"), ("Equals", "FuncDep"), ("FuncDep", "FuncDep")):
+        t += [_tm.T(f"typeorder/mirror[{a},{b}]/relative", mro_c.t_mirror(a, b, "relative", unfold=1))]
+    t += [_tm.T("FuncDependentType.__lt__/wildcards", mro_c.t_funcdep_lt)]
+    t += _tm.resolve_tasks(tier) + _tm.resolve_unbounded_tasks() + _tm.wrap_tasks()
     return t
 
 
